@@ -783,9 +783,21 @@ void tickit_term_input_push_bytes(TickitTerm *tt, const char *bytes, size_t len)
   check_resize(tt);
 
   TermKey *tk = get_termkey(tt);
-  termkey_push_bytes(tk, bytes, len);
 
-  get_keys(tt, tk);
+  /* termkey_push_bytes() accepts no more than its buffer has room for: hand
+   * over the rest once the keys that are complete have been taken out */
+  while(true) {
+    size_t pushed = termkey_push_bytes(tk, bytes, len);
+    if(pushed == (size_t)-1)
+      pushed = 0;
+
+    get_keys(tt, tk);
+
+    bytes += pushed;
+    len   -= pushed;
+    if(!len || !pushed)
+      break;
+  }
 }
 
 void tickit_term_input_readable(TickitTerm *tt)
